@@ -22,4 +22,41 @@ PROPS = {
         ],
         "assumptions": ["bytes are < 256", "platform int is 64 bit (read from strconv.IntSize by the extractor)"],
     },
+    "C11": {
+        "suites": ["part"],
+        "lean_modules": ["SdbModel.Props.C11"],
+        "level": "translation_validation",
+        "facts_key": "art",
+        "rule": "part suite: a case = one fresh part.Tree (per-node or root-only watch mode) driven through 1-6 (quick) / 1-10 (thorough) transactions of up to 30/120 operations (insert, modify, delete, get, prefix, lower-bound, iterate, len, clone, retained iterators, structure dumps), branching from old versions, abandoned transactions, one-shot Tree.Insert/Delete; three key modes (dense fan-out under short stems, full byte range, structured alphabets with empty/prefix-related keys); every 6th case grows one node past 48 children and shrinks back; at the end every retained version and iterator is re-read. Non-trivial = every generated case (all contain writes and reads); distinct = sha256 of the op list",
+        "trusted_base": COMMON_TB + [
+            "Model.Art is a hand-written model of part/txn.go, node.go, iterator.go, tree.go; it is tied to the code by comparing, on every run, return values, iteration results, watch-channel identities (canonicalised by hand-out order), closed-channel sets and full structure dumps (node kinds, compressed prefixes, leaf keys) after each operation",
+            "node capacities / demotion thresholds / promote and merge conditions / txnID bumps are regenerated from the source",
+            "Go memory aliasing is not modelled in Model.Art (values are immutable there); the stamp discipline is the subject of Model.Cow / C01",
+        ],
+        "assumptions": ["one transaction in flight per tree lineage; Notify only along one line of history (DESIGN.md note N4)", "keys shorter than 2^16 bytes"],
+    },
+    "C12": {
+        "suites": ["part"],
+        "lean_modules": ["SdbModel.Props.C12"],
+        "level": "translation_validation",
+        "facts_key": "art",
+        "rule": "same part suite as C11; in addition watch channels are collected from the base version before each transaction (Get/Prefix/RootWatch on present and absent keys and prefixes, InsertWatch/ModifyWatch results) and their open/closed state is observed after commit, after notify and after abandon; oracle: must-close rules, closed-only-at-Notify, open-when-handed-out, root watch left open by no-change transactions",
+        "trusted_base": COMMON_TB + [
+            "Model.Art follows the code's clone / promote / demote / merge decisions for the watch and txn fields; closed-channel sets are compared exactly with the implementation after every operation",
+        ],
+        "assumptions": ["one notified transaction per tree lineage (a second Notify on a sibling branch closes the same channels again and panics: DESIGN.md note N4)",
+                        "an InsertWatch channel obtained earlier in the same transaction for a key changed again in that transaction is not constrained (note N1)"],
+    },
+    "C17": {
+        "suites": ["pmap"],
+        "lean_modules": ["SdbModel.Props.C17"],
+        "level": "translation_validation",
+        "facts_key": "art",
+        "rule": "pmap suite: a case = 40 (quick) / 120 (thorough) operations on part.Map[string,int] and part.Set[string] values applied to ANY earlier version (branching): Set, Delete, FromMap, Get, All, Prefix, LowerBound, Len, EqualKeys/SlowEqual, MapTxn (Set/Delete/Get/All/Len/Commit, used again after Commit), NewSet/Set/Delete/Has/Union/Difference/Equal, JSON and YAML round trips (ASCII-key cases); keys from a tiny alphabet so that empty/singleton/tree transitions and prefix-related keys are the norm; after every step earlier versions are re-read, at the end all of them. Non-trivial = every case; distinct = sha256 of op list",
+        "trusted_base": COMMON_TB + [
+            "Model.PMap (hand-written over Model.Art) is tied to part/map.go, set.go by comparing representation (empty/single/tree + structure dump), Len and every query result after each operation",
+            "the JSON/YAML text layer (encoding/json, yaml.v3) is exercised on the Go side only; keys restricted to valid UTF-8 for round trips",
+        ],
+        "assumptions": ["values are not mutated by the user", "Set.All() is consumed completely (early break is outside the property)"],
+    },
 }
